@@ -28,12 +28,13 @@ pub fn run_job(job: &Job) -> RunResult {
     }
 }
 
-/// Candidate reductions of a trace, for minimisation (runs in the orchestrator).
-pub fn shrink_candidates(engine: &str, trace: &serde_json::Value) -> Vec<serde_json::Value> {
+pub const SHRINK_STAGES: usize = crate::lsp::shrink::STAGES;
+
+/// Candidate reductions of a trace at a given stage, most aggressive first
+/// (runs in the orchestrator; pure JSON manipulation).
+pub fn shrink_candidates(engine: &str, trace: &serde_json::Value, stage: usize) -> Vec<serde_json::Value> {
     match engine {
-        _ => {
-            let _ = trace;
-            vec![]
-        }
+        "lsp-sim" => crate::lsp::shrink::candidates(trace, stage),
+        _ => vec![],
     }
 }
